@@ -97,7 +97,7 @@ def run(tier, seed):
     c = Check(PROP, tier, seed, "model_checking")
     wd = vlib.workdir("c10")
     c.assumptions = ["keys cross into the specification as ranks in the driver's own typed order (numeric, byte-lexicographic, lexicographic for composites); "
-                     "64-bit keys are chosen exactly representable in f64 (the engine compares them through f64: property C19)",
+                     "64-bit keys include neighbours above 2^53 and at the top of the range (they collided before the comparison fix c56fbc9)",
                      "payload identity by id; payload bytes are compared by the driver",
                      "rows that continue in overflow chains are inserted, looked up, scanned and released with the whole tree, never rewritten "
                      "(recorded findings SeparatorAliasesOverflowChain, BalanceFailsOnLargeCells; witnesses are re-run)",
